@@ -70,6 +70,7 @@ type ContractFile struct {
 	SpecOrder []string
 	Lemmas    map[string]*Lemma
 	LemmaOrd  []string
+	Immutable []string // "<Type>.<field>[.<sub>]": fields written only at construction
 	Path      string
 }
 
@@ -133,6 +134,13 @@ func parseContractFile(path string) (*ContractFile, error) {
 		if body == "" {
 			continue
 		}
+		if strings.HasPrefix(body, "immutable ") {
+			for _, f := range splitTopComma(strings.TrimPrefix(body, "immutable ")) {
+				cf.Immutable = append(cf.Immutable, f)
+			}
+			cur = nil
+			continue
+		}
 		if strings.HasPrefix(body, "func ") || strings.HasPrefix(body, "pure ") || strings.HasPrefix(body, "lemma ") {
 			cur = &block{hdr: body, line: ln}
 			blocks = append(blocks, cur)
@@ -154,6 +162,10 @@ func parseContractFile(path string) (*ContractFile, error) {
 	}
 	mkClause := func(text string, line int) (*Clause, error) {
 		c := &Clause{Src: text, Line: line}
+		if strings.TrimSpace(text) == "*" || strings.TrimSpace(text) == "nothing" {
+			c.Src = strings.TrimSpace(text)
+			return c, nil
+		}
 		if m := reLabel.FindStringSubmatch(text); m != nil {
 			c.Label = m[1]
 			c.Src = m[2]
